@@ -9,6 +9,7 @@ import (
 	"strings"
 	"sync"
 	"syscall"
+	"time"
 
 	simrt "github.com/github/go-spdx/v2/zz_simrt"
 
@@ -220,7 +221,15 @@ func execRun(rec *proto.RunRec, free bool) runOutcome {
 		for i := 0; i < nt; i++ {
 			go body(i)
 		}
-		wg.Wait()
+		done := make(chan struct{})
+		go func() { wg.Wait(); close(done) }()
+		select {
+		case <-done:
+		case <-time.After(hangTimeout):
+			out.viol = append(out.viol, proto.Violation{Class: "deadlock", Task: -1, Op: -1,
+				Detail: fmt.Sprintf("free-running mode: the run's calls (milliseconds each when made alone) had not all returned after %v", hangTimeout)})
+			return out
+		}
 	} else {
 		var pol simrt.Policy
 		if rec.Scripted {
